@@ -46,6 +46,16 @@ CHECKS = {
          'Every sequence of <=3 (thorough 4) symbols over a 20-symbol alphabet (connect-ok, 4 kinds of failing connect, close, 10 operations, 4 empty-path operations) plus all length-5 '
          '(thorough 6) sequences over 8 symbols, both twins, run on the real AdbDevice/AdbDeviceAsync; `available` must equal the reference machine after every step, guarded operations '
          'must raise without writing a byte or creating a file, operations while connected must return ground truth.', 'trusts adbsim; no state abstraction is used to extend the bound', '4/C13'),
+ 'C07': ('exploration', 'exhaustive enumeration of file sizes x maxdata x sources x callbacks against the model filesystem',
+         'For maxdata 4096 and 8192 EVERY file size from 0 to 3 chunks+64 is pushed (both twins); for 64 KiB..1 MiB every size within +-48 of each chunk multiple and flush threshold; '
+         'plus path lengths up to the adbd limit, st_mode/mtime values, BytesIO / file / directory sources from three working directories, counting / raising / re-entrant callbacks and a '
+         'withheld final OKAY. The model filesystem must hold exactly the source bytes, DATA <= 64 KiB, WRTE <= maxdata, one mkdir, return only after the sync OKAY, host log unchanged by callbacks.',
+         'trusts adbsim sync service and filesystem model; contents are seeded bytes', '4/C07'),
+ 'C10': ('exploration', 'exhaustive enumeration of failure points x FAIL positions among OKAYs x reasons x packetisations',
+         'pull: FAIL after RECV / after 1-2 DATA / instead of DONE; push: FAIL after SEND, after each DATA, at DONE for files of 1..5+ host WRTEs with the FAIL WRTE at EVERY legal position '
+         'among the device OKAYs; five reason strings; the FAIL record cut at every set of <=2 positions; every sync id that is invalid at that point for pull/list/stat/push; both twins. '
+         'Oracle: documented exception type carrying the reason, never a normal return, never a timeout class, no virtual time spent.',
+         'trusts adbsim (FAIL handling per handle_send_file); ids outside the sync id table unspecified', '4/C10'),
 }
 NOT_YET = 'check not built yet in this round (planned, see DESIGN.md section 4); not claimed until it runs'
 
